@@ -98,6 +98,13 @@ def fixed_targets():
         T.append(stere(90, lon0, (-5e5, -25e5, 5e5, -15e5), 10, 10, "rotated"))   # towards lon_0
         T.append(stere(90, lon0, (-5e5, 15e5, 5e5, 25e5), 10, 10, "rotated"))     # beyond the pole
         T.append(stere(90, lon0, (15e5, -5e5, 25e5, 5e5), 10, 10, "rotated"))     # to the side
+    # CRSs whose geodetic part is not plain Greenwich lon/lat: prime meridian, datum shift, +over (always also run with nprocs=2)
+    T.append(dict(area({"proj": "eqc", "pm": 180, "ellps": "WGS84"}, 8, 6, (-8.0e5, 4.0e6, 8.0e5, 5.2e6), "prime_meridian"), mp=True))
+    T.append(dict(area({"proj": "longlat", "pm": -70, "ellps": "WGS84"}, 7, 6, (5.0, 30.0, 19.0, 42.0), "prime_meridian"), mp=True))
+    T.append(dict(area({"proj": "merc", "pm": "madrid", "ellps": "WGS84"}, 8, 5, (-6.0e5, 4.2e6, 6.0e5, 5.0e6), "prime_meridian"), mp=True))
+    T.append(dict(area({"proj": "stere", "lat_0": 90, "lon_0": 0, "lat_ts": 60, "ellps": "bessel",
+                        "towgs84": "598.1,73.7,418.2,0.202,0.045,-2.455,6.7"}, 8, 8, (-4e5, -24e5, 4e5, -16e5), "bound_crs"), mp=True))
+    T.append(dict(area({"proj": "eqc", "lon_0": 170, "over": True, "ellps": "WGS84"}, 8, 5, (-8.0e5, 1.0e6, 2.4e6, 3.0e6), "lon_over"), mp=True))
     T.append(stere(-90, 0, (-1e6, -1e6, 1e6, 1e6), 11, 13, "over_pole"))
     T.append(stere(-90, 140, (-5e5, 15e5, 5e5, 25e5), 10, 10, "rotated"))
     T.append(area({"proj": "laea", "lat_0": 52, "lon_0": 10, "ellps": "WGS84"}, 14, 12, (-7e5, -6e5, 7e5, 6e5), "mid_lat"))
@@ -171,7 +178,15 @@ def area_lonlats(a):
     xs = x0 + dx * (np.arange(a["w"]) + 0.5)
     ys = y1 - dy * (np.arange(a["h"]) + 0.5)
     X, Y = np.meshgrid(xs, ys)
-    tr = pyproj.Transformer.from_crs(crs.geodetic_crs, crs, always_xy=True)
+    gcrs = crs.geodetic_crs
+    if gcrs.prime_meridian.longitude != 0:
+        import warnings
+        with warnings.catch_warnings():
+            warnings.simplefilter("ignore")
+            d = gcrs.to_dict()
+        d.pop("pm", None)
+        gcrs = pyproj.CRS.from_dict(d)          # longitudes counted from Greenwich
+    tr = pyproj.Transformer.from_crs(gcrs, crs, always_xy=True)
     lon, lat = tr.transform(X, Y, direction="INVERSE")
     return np.asarray(lon, dtype=float), np.asarray(lat, dtype=float), tr, (x0, y0, x1, y1, abs(dx), abs(dy))
 
@@ -302,13 +317,14 @@ def gen_cases(ctx, mp_ok):
         lon, lat, _, _ = area_lonlats(tgt)
         ps = pixel_scale(lon, lat)
         force = tgt.pop("force", None)
+        mp_forced = tgt.pop("mp", False)
         if force:
             radius = force["radius"]
         else:
             radius = float(round(ps * r.choice([0.7, 1.3, 2.2, 4.0]) if r.random() < 0.8 else r.choice([3.0e5, 1.0e6, 1.6e6, 2.5e6])))
         radius = max(radius, 1000.0)
         n = r.randint(20, 120) if ctx.tier == "quick" else r.randint(20, 400)
-        mp_case = (ti % 4 == 0) if ctx.thorough else ti in (0, 6, 12, 19)      # cases also run with nprocs=2
+        mp_case = mp_forced or ((ti % 4 == 0) if ctx.thorough else ti in (0, 6, 12, 19))      # cases also run with nprocs=2
         if mp_case:
             n = min(n, 60)
         malformed = (ti % 7 == 3) and not force
@@ -327,7 +343,7 @@ def gen_cases(ctx, mp_ok):
         src = {"kind": "swath", "lons": slon, "lats": slat, "shape": shape}
         mode = "swath_to_area"
         t_out, s_out = dict(tgt), src
-        if ti % 6 == 5 and tgt["tag"] != "thin" and not force:
+        if ti % 6 == 5 and tgt["tag"] != "thin" and not force and not mp_forced:
             # grid -> swath: the reduction applies to the TARGET points (valid_output_index)
             mode = "area_to_swath"
             t_out = {"kind": "swath", "lons": slon, "lats": slat, "shape": shape, "tag": tgt["tag"]}
@@ -437,6 +453,21 @@ def check_case(ctx, case, obs, report):
     T = obs["T"]
     if runs[0].get("skipped"):
         return facts
+    for which, o in (obs.get("lonlats_mp") or {}).items():
+        cls = {"prime_meridian": "prime_meridian", "bound_crs": "bound_crs", "lon_over": "lon_over"}.get(case["tag"], "greenwich")
+        if "error" in o:
+            report("C03.nprocs.lonlats.%s" % cls, "%s.get_lonlats(nprocs=2) raises %s(%s) where get_lonlats() returns" % (which, o["error"], o.get("msg", "")),
+                   {"config": {"reduce": False, "segments": 1, "nprocs": 2}})
+            continue
+        ref = obs["tgt_lonlat"] if which == "target" else obs["src_lonlat"]
+        for name_, a, b in (("lons", dec(o["lon"], np.float64), dec(ref[0], np.float64)), ("lats", dec(o["lat"], np.float64), dec(ref[1], np.float64))):
+            if a.shape != b.shape or not np.array_equal(a, b, equal_nan=True):
+                j = int(np.flatnonzero(~((a == b) | ((a != a) & (b != b))))[0]) if a.shape == b.shape else -1
+                report("C03.nprocs.lonlats.%s" % cls, "%s.get_lonlats(nprocs=2) %s differ from get_lonlats() (%s), e.g. pixel %d: %r vs %r" % (
+                    which, name_, str(case["target"].get("proj") if which == "target" else case["source"].get("proj")), j,
+                    float(a.ravel()[j]) if j >= 0 else None, float(b.ravel()[j]) if j >= 0 else None),
+                    {"config": {"reduce": False, "segments": 1, "nprocs": 2}})
+                break
     refs = {}                      # reduce flag -> (run, infos, canon, fresh)
     thin_cls = case["tag"] == "thin"
     for run in runs:
